@@ -225,6 +225,20 @@ def Period.intersection (p : Period) (a b : Option Date) : Except String (Option
     .ok (some ⟨.day, is, ord ie - ord is + 1⟩)
   else .error "date"
 
+/-- `Period.date`: the start date of a period of size one -/
+def Period.date (p : Period) : Except String Date :=
+  if p.size ≠ 1 then .error "value"
+  else if dateOk p.start then .ok p.start else .error "date"
+
+/-- `Period.is_eternal`, `Instant.is_eternal` -/
+def Period.isEternal (p : Period) : Bool := decide (p = Period.eternity)
+def Date.isEternal (c : Date) : Bool := decide (c = eternityDate)
+
+/-- `helpers.instant_date`: `none` is Python's `None`, otherwise `pendulum.date(*instant)` -/
+def instantDate : Option Date → Except String (Option Date)
+  | none => .ok none
+  | some c => if dateOk c then .ok (some c) else .error "date"
+
 /-- the denotation: closed interval of ordinals `[lo, hi]` -/
 def Period.lo (p : Period) : Int := ord p.start
 def Period.hi (p : Period) : Int :=
